@@ -2106,6 +2106,9 @@ class Exec:
                 if hk is not None:
                     return hk(self, st, None, A, kws) if getattr(hk, 'wants_kws', False) else hk(self, st, None, A)
                 return [(st, VExt(name, A, kws))]
+            hk = self.hooks.get(('ext', name))          # a library function the scenario gives a contract for
+            if hk is not None:
+                return hk(self, st, None, A, kws) if getattr(hk, 'wants_kws', False) else hk(self, st, None, A)
             raise ToolLimit('builtin %s' % name)
         # bound methods
         if isinstance(b, VObj) and name == 'objdict.update' and len(A) == 1 and isinstance(A[0], VBuiltin) and A[0].name == 'objdict':
